@@ -4,7 +4,7 @@
    That the Python objects behave like these values is what the correspondence run
    and the frame oracle of this check establish on the implementation. *)
 From Coq Require Import String List Arith.
-From Prov Require Import Str Sexp Tables Nsm Values Record World Interp InterpProofs Alias AliasProofs.
+From Prov Require Import Str Sexp Tables Nsm Values Record World Interp InterpProofs Alias AliasProofs AliasTyped.
 Import ListNotations.
 Open Scope string_scope.
 
@@ -95,6 +95,34 @@ Theorem C12_flattened_with_bundles_is_new : forall ops i d s ss,
   adocs (astep (arun ops) (AFlattened i)) = (adocs (arun ops) ++ [anext (arun ops)])%list.
 Proof. intros ops i d s ss. apply flattened_with_bundles_is_new, arun_inv. Qed.
 Print Assumptions C12_flattened_with_bundles_is_new.
+
+(* the pointers lead where the code takes them to lead, after any sequence of calls: a bundle's manager pointer to a
+   manager, every record a container lists was made for that container (its _bundle), every bundle a document lists
+   is a plain bundle whose manager's parent is the document's manager, handles are documents *)
+Theorem C12_pointers_typed : forall ops, Typed (arun ops).
+Proof. exact arun_typed. Qed.
+Print Assumptions C12_pointers_typed.
+
+(* hence add_attributes / set_time / add_asserted_type on a record write that record and the manager of the container
+   that lists it — objects of the record's own document *)
+Theorem C12_record_change_writes_own_container : forall ops i s r d b x,
+  hdl (arun ops) i = Some d -> cont (arun ops) d s = Some b -> nth_error (recs_of (arun ops) b) r = Some x ->
+  exists v, aget (arun ops) x = Some (ORec b v) /\
+  astep (arun ops) (ATouchRec i s r) =
+    match ns_of (arun ops) b with Some m => bump m (bump x (arun ops)) | None => bump x (arun ops) end.
+Proof. intros ops i s r d b x. apply touch_rec_writes_own_container, arun_typed. Qed.
+Print Assumptions C12_record_change_writes_own_container.
+
+(* record copy: c = r.copy() followed by changes of c leaves r — and every other record, bundle and manager but the
+   manager of the container that lists r (where the copy's names are validated) — as it was; no container lists c *)
+Theorem C12_copy_leaves_source : forall ops i s r d b x,
+  hdl (arun ops) i = Some d -> cont (arun ops) d s = Some b -> nth_error (recs_of (arun ops) b) r = Some x ->
+  aget (astep (arun ops) (ACopyTouch i s r)) x = aget (arun ops) x /\
+  (forall l, l < anext (arun ops) -> ns_of (arun ops) b <> Some l ->
+             aget (astep (arun ops) (ACopyTouch i s r)) l = aget (arun ops) l) /\
+  adocs (astep (arun ops) (ACopyTouch i s r)) = adocs (arun ops).
+Proof. intros ops i s r d b x. apply copy_touch_leaves_source; [apply arun_inv | apply arun_typed]. Qed.
+Print Assumptions C12_copy_leaves_source.
 
 (* non-vacuity: a document with a bundle and records; unified() and update() into another document; then records,
    attributes and declarations on the results: the source is observed as before, and the three documents reach 7, 7
